@@ -87,7 +87,8 @@ def demo(files, n, wd, rng_seed=1, spec='NucleoConform.tla', cand=None):
     runs = []
     for f in files:
         runs += split_runs(f)
-    runs = [r for r in runs if 30 < len(r) < 1500 and not any('"site":"abort"' in l or '"api":"snapshot"' in l or '"api":"extend_panic"' in l for l in r)]
+    outside = ('"site":"abort"', '"api":"snapshot"', '"api":"extend_panic"', '"api":"extend_huge"', '"api":"push_checked"', '"api":"mem_balance"')
+    runs = [r for r in runs if 30 < len(r) < 1500 and not any(any(o in l for o in outside) for l in r)]
     jobs, meta = [], []
     for t in range(n):
         r = random.choice(runs)
